@@ -46,6 +46,11 @@ func getKey(alg uint8, bits int, owner string, flags uint16, slot int) (*sigKey,
 	}
 	k := &dns.DNSKEY{Hdr: dns.RR_Header{Name: owner, Rrtype: dns.TypeDNSKEY, Class: dns.ClassINET, Ttl: 3600}, Flags: flags, Protocol: 3, Algorithm: alg}
 	priv, err := k.Generate(bits)
+	for err == nil && k.KeyTag() == 0 {
+		// one random key in 65536 has tag 0, which Sign takes for "no tag set" (a recorded finding with a
+		// deterministic reproduction of its own, see tagZeroKey): draw again so that runs do not differ
+		priv, err = k.Generate(bits)
+	}
 	if err != nil {
 		return nil, err
 	}
@@ -62,6 +67,9 @@ func getKey(alg uint8, bits int, owner string, flags uint16, slot int) (*sigKey,
 func freshKey(alg uint8, bits int, owner string, flags uint16) (*sigKey, error) {
 	k := &dns.DNSKEY{Hdr: dns.RR_Header{Name: owner, Rrtype: dns.TypeDNSKEY, Class: dns.ClassINET, Ttl: 3600}, Flags: flags, Protocol: 3, Algorithm: alg}
 	priv, err := k.Generate(bits)
+	for err == nil && k.KeyTag() == 0 {
+		priv, err = k.Generate(bits) // see getKey
+	}
 	if err != nil {
 		return nil, err
 	}
@@ -142,4 +150,31 @@ func doubleCarryKey(owner string, flags uint16) (*sigKey, error) {
 		return sk, nil
 	}
 	return nil, fmt.Errorf("no double-carry key found")
+}
+
+// tagZeroKey returns an Ed25519 key whose RFC 4034 key tag is 0 (one key in 65536; found by walking
+// deterministic seeds, about a second, cached per process).
+func tagZeroKey(owner string, flags uint16) (*sigKey, error) {
+	id := fmt.Sprintf("tag-zero/%s/%d", owner, flags)
+	keyMu.Lock()
+	defer keyMu.Unlock()
+	if k, ok := keyCache[id]; ok {
+		return k, nil
+	}
+	seed := make([]byte, ed25519.SeedSize)
+	seed[0] = 0x5a
+	for ctr := uint32(0); ctr < 4000000; ctr++ {
+		binary.BigEndian.PutUint32(seed[len(seed)-4:], ctr)
+		priv := ed25519.NewKeyFromSeed(seed)
+		pub := priv.Public().(ed25519.PublicKey)
+		if model.KeyTag(model.KeyRdata(flags, 3, dns.ED25519, pub)) != 0 {
+			continue
+		}
+		k := &dns.DNSKEY{Hdr: dns.RR_Header{Name: owner, Rrtype: dns.TypeDNSKEY, Class: dns.ClassINET, Ttl: 3600}, Flags: flags, Protocol: 3, Algorithm: dns.ED25519,
+			PublicKey: base64.StdEncoding.EncodeToString(pub)}
+		sk := &sigKey{Alg: dns.ED25519, Bits: 256, Key: k, Priv: priv}
+		keyCache[id] = sk
+		return sk, nil
+	}
+	return nil, fmt.Errorf("no key with tag 0 found")
 }
